@@ -781,11 +781,17 @@ def run(tier: str) -> int:
         o.extra["phase_seconds"]["V:" + origin] = round(time.time() - t1, 1)
     o.sample({"soup": docs["soup"][0]})
     o.sample({"grammar": docs["grammar"][0]})
+    # the repository's own test-suite as a trace source (harness/suitetrace.py)
+    import suitetrace
+    common.with_engine(o, "suite", lambda: suitetrace.extend(o, tier, PID))
     return o.finish()
 
 
 def replay(path: str) -> int:
     v = json.loads(Path(path).read_text())
+    if v.get("case", {}).get("engine") == "suite":
+        import suitetrace
+        return suitetrace.replay(path)
     c = v["case"]
     common.use_repo()
     with Scratch("c01r-") as d:
